@@ -85,6 +85,59 @@ func (e *Engine) recordAction(st *State, a *Action) {
 	}
 }
 
+// cellHavoc (`opt cellhavoc on`, sequential mode): interference on the cell an atomic pointer operation is about to
+// touch. Other goroutines may have changed it since this call last looked: its content is forgotten, except that the
+// contract's `rely` clauses hold between the content before (old) and after. Memory this call allocated itself is not
+// shared yet and is left alone. Reports whether the option is on.
+func (e *Engine) cellHavoc(st *State, fr *Frame, addr Val) bool {
+	if e.rootC == nil || len(e.rootC.Extra["cellhavoc"]) == 0 || e.rootFr == nil {
+		return false
+	}
+	loc := e.locOf(addr)
+	prev := st.Clone()
+	cur := e.loadLoc(st, loc)
+	nv := e.freshVal("cell_if", cur.T)
+	shared := Lt(e.allocID(addr.L[0]), e.next0)
+	for i := range nv.L {
+		nv.L[i] = Ite(shared, nv.L[i], cur.L[i])
+	}
+	e.storeLoc(st, loc, nv)
+	se := e.specEnv(st, prev, e.rootFr)
+	se.vars = e.params
+	for _, r := range e.rootC.Rely {
+		st.Assume(e.evalBool(r.E, se))
+	}
+	e.note("opt cellhavoc: before every atomic pointer operation the cell may have been changed by other goroutines (subject to the rely)")
+	return true
+}
+
+// blindStore: an atomic Store (not a compare-and-swap) overwrites whatever the cell holds at that instant. The
+// contract must say what it may overwrite (`opt blindstore <condition over overwritten>`); without the clause no blind
+// store is allowed in the function.
+func (e *Engine) blindStore(st *State, fr *Frame, addr Val, pos string) {
+	loc := e.locOf(addr)
+	cur := e.loadLoc(st, loc)
+	goal := False
+	note := "this function has no `opt blindstore`: every write of the shared cell must be a compare-and-swap"
+	if bs := e.rootC.Extra["blindstore"]; len(bs) > 0 {
+		ex, err := ParseSpecExpr(strings.Join(bs, " "))
+		if err != nil {
+			panic(unsupported("opt blindstore: %v", err))
+		}
+		se := e.specEnv(st, e.oldOf(st), e.rootFr)
+		se.vars = map[string]Val{}
+		for k, v := range e.params {
+			se.vars[k] = v
+		}
+		se.vars["overwritten"] = cur
+		goal = e.evalBool(ex, se)
+		note = "the value a blind atomic store overwrites: " + strings.Join(bs, " ")
+	}
+	// memory this call allocated itself may be initialised freely
+	goal = Or(Not(Lt(e.allocID(addr.L[0]), e.next0)), goal)
+	e.obligation(st, "blind-store", pos, goal, note)
+}
+
 // assumeRely: the shared-state invariant holds after interference (every goroutine maintains it).
 func (e *Engine) assumeRely(st *State) {
 	if e.rootC == nil || e.rootFr == nil {
@@ -236,6 +289,7 @@ func init() {
 			panic(unsupported("sync/atomic pointer operations in atomic mode"))
 		}
 		e.obligationPanic(st, "nil", "atomic.LoadPointer", Not(Eq(args[0].L[0], IntLit(0))))
+		e.cellHavoc(st, fr, args[0])
 		v := e.loadLoc(st, e.locOf(args[0]))
 		v.T = rt
 		k(st, fr, v)
@@ -245,6 +299,9 @@ func init() {
 			panic(unsupported("sync/atomic pointer operations in atomic mode"))
 		}
 		e.obligationPanic(st, "nil", "atomic.StorePointer", Not(Eq(args[0].L[0], IntLit(0))))
+		if e.cellHavoc(st, fr, args[0]) {
+			e.blindStore(st, fr, args[0], pos)
+		}
 		e.storeLoc(st, e.locOf(args[0]), Val{T: e.locOf(args[0]).T, L: args[1].L})
 		k(st, fr, Val{T: types.NewTuple()})
 	}
@@ -253,6 +310,7 @@ func init() {
 			panic(unsupported("sync/atomic pointer operations in atomic mode"))
 		}
 		e.obligationPanic(st, "nil", "atomic.CompareAndSwapPointer", Not(Eq(args[0].L[0], IntLit(0))))
+		e.cellHavoc(st, fr, args[0])
 		loc := e.locOf(args[0])
 		cur := e.loadLoc(st, loc)
 		ok := Eq(cur.L[0], args[1].L[0])
